@@ -132,8 +132,12 @@ func (r *Rec) Case(fp uint64, nontrivial bool, class string, sample func() inter
 		r.classes[class]++
 	}
 	if sample != nil && len(r.samples) < 24 && r.sampleSeen[class] < 2 && nontrivial {
-		r.sampleSeen[class]++
-		r.samples = append(r.samples, sample())
+		key := "fp:" + strconv.FormatUint(fp, 16)
+		if r.sampleSeen[key] == 0 {
+			r.sampleSeen[key] = 1
+			r.sampleSeen[class]++
+			r.samples = append(r.samples, sample())
+		}
 	}
 }
 
